@@ -65,7 +65,9 @@ def port(key):
         meta_p = os.path.join(d, "meta.json")
         meta = json.load(open(meta_p))
         head = sh(["git", "-C", "/repo", "rev-parse", "--short", "HEAD"]).stdout.strip()
-        meta.setdefault("ported", []).append({"to_repo_head": head, "why": "a later fix: commit moved the context of the patch; same edit, demo re-run (0 clean / 1 patched), suite 77 passed"})
+        if not isinstance(meta.get("ported"), list):
+            meta["ported"] = [meta["ported"]] if meta.get("ported") else []
+        meta["ported"].append({"to_repo_head": head, "why": "a later fix: commit moved the context of the patch; same edit, demo re-run (0 clean / 1 patched), suite 77 passed"})
         meta["repo_head_when_checked"] = head
         json.dump(meta, open(meta_p, "w"), indent=1)
         return key, "PORTED", tail
